@@ -206,6 +206,81 @@ def no_ambient(res, prog):
                             res.violation('C13.4', 'C13.4|ptr2int|%s' % f.qual, f, s.get('line'), 'pointer-to-integer cast (address-dependent value)')
                         # parse_cfi_exprs only subtracts two addresses inside one string: offsets, address-independent
 
+ACCESSOR = re.compile(r'^minidump_common::traits::Module::(\w+)$')
+
+
+def cache_key_complete(res, prog):
+    """C13.5: results cached per module (symbol files, stats recorded while filling the cache) are shared by every module
+    with the same key, and which module fills a slot depends on completion order.  Everything the fill reads from the
+    module must therefore be part of the key, on every return path of module_key."""
+    bs = prog.crate('breakpad_symbols')
+    res.rule('C13.5', 0, floor=2, note='cache key covers every Module accessor read while filling a per-module cache slot')
+    mk = bs.fn('breakpad_symbols::module_key')
+    if mk is None:
+        res.error('C13.5', 'breakpad_symbols::module_key not found')
+        return
+    byname = {f.qual: f for f in bs.fns}
+
+    def accessors_under(roots):
+        seen = set()
+        acc = {}
+        work = list(roots)
+        while work:
+            f = work.pop()
+            if f.qual in seen:
+                continue
+            seen.add(f.qual)
+            # nested closures / coroutine bodies belong to their parent
+            for g in bs.fns:
+                if g.qual.startswith(f.qual + '::{') and g.qual not in seen:
+                    work.append(g)
+            for b, t in f.calls():
+                if is_log_term(t):
+                    continue
+                n = f.callee(t) or ''
+                d = f.callee_decl(t) or ''
+                m = ACCESSOR.match(d) or ACCESSOR.match(n)
+                if m:
+                    acc.setdefault(m.group(1), (f, t.get('line')))
+                    continue
+                if n in byname:
+                    work.append(byname[n])
+                if re.search(r'SymbolSupplier::(locate_symbols|locate_file)$', d):
+                    # dynamic dispatch: every implementation in the crate
+                    for g in bs.fns:
+                        if re.search(r' as SymbolSupplier>::(locate_symbols|locate_file)$', g.qual):
+                            work.append(g)
+        return acc, seen
+    sites = 0
+    for f in bs.fns:
+        for b, t in f.calls():
+            if (f.callee(t) or '') != mk.qual:
+                continue
+            sites += 1
+            fills = [g for g in bs.fns if g.qual.startswith(f.qual + '::{')]
+            if not fills:
+                # a key helper (file_key): the functions that call it do the lookup / fill themselves
+                fills = [g for g in bs.fns if any((g.callee(t2) or '') == f.qual for _, t2 in g.calls())]
+            used, seen = accessors_under(fills)
+            for (rb, ri, tr) in ret_assigns(mk):
+                res.rule('C13.5', 1)
+                e = mk.expand(tr)
+                have = set()
+                for x in walk(e):
+                    if isinstance(x, tuple) and x and x[0] == 'call':
+                        m = ACCESSOR.match(x[1])
+                        if m:
+                            have.add(m.group(1))
+                missing = sorted(set(used) - have)
+                if missing:
+                    g, line = used[missing[0]]
+                    res.violation('C13.5', 'C13.5|%s|%s' % (f.qual, ','.join(missing)), g, line,
+                                  'the fill of the per-module cache slot in %s reads module.%s(), which module_key (return at %s:%s) does not include: modules that differ only in it share a slot, and the one whose lookup completes first decides what is cached / recorded' % (f.qual, '(), module.'.join(missing), mk.file, mk.blocks[rb]['t'].get('line') or mk.line))
+                else:
+                    res.sample({'rule': 'C13.5', 'cache_site': f.qual, 'fill_reads': sorted(used), 'key_has': sorted(have), 'functions_followed': len(seen)})
+    if sites == 0:
+        res.error('C13.5', 'no call of module_key found')
+
 
 def run(tier, t0):
     res = harness.Result(PID)
@@ -214,12 +289,13 @@ def run(tier, t0):
     shared_writes(res, prog)
     joined_by_index(res, prog)
     no_ambient(res, prog)
+    cache_key_complete(res, prog)
     res.assumptions += [
         'serde_json::Map is a BTreeMap (feature preserve_order is not enabled): object key order is deterministic',
         'BTreeMap/BTreeSet/Vec/slice iteration is deterministic; HashMap/HashSet iteration order is arbitrary per process',
         'writes to PendingProcessorStats (processor-stats lock) feed only the interactive progress UI, never ProcessState',
     ]
-    return harness.finish(res, tier, t0, distinct=4, explanation=(
+    return harness.finish(res, tier, t0, distinct=5, explanation=(
         'Order lint over MIR: every call that observes HashMap/HashSet iteration order in the processing crates is followed through iterator adaptors to its consumer, which must be '
         'order-insensitive (another hash/BTree collection, a sort, any/all/count/min/max) or reviewed; every mutation of Mutex-protected state shared by the concurrently polled futures must be '
         'commutative or keyed injectively; per-thread results must be joined positionally; no clock / RNG / thread identity / address-derived value in processing code. These are necessary and, for the '
